@@ -236,10 +236,19 @@ def run(case):
         by_ptr = {v.untyped_storage().data_ptr(): v for v in ctx2.leaves.values() if torch.is_tensor(v) and v.requires_grad}
         targets = [by_ptr.get(t.untyped_storage().data_ptr(), t) for t in need]
         # (only for views that merely add / drop singleton dimensions; e.g. a transposed view is differentiated directly)
-        targets = [tg if (tg.numel() == t.numel() and tuple(tg.squeeze().shape) == tuple(t.squeeze().shape) and tg.squeeze().stride() == t.squeeze().stride()) else t
-                   for tg, t in zip(targets, need)]
+        def _is_expand_of(tg, t):
+            # t is a stride-0 expansion of the leaf tg (constructors expand broadcasting operands to the common batch shape): autograd reduces
+            # the derivative w.r.t. such an argument back to the leaf's shape, so the hand-written derivative is compared after that reduction
+            try:
+                return tg is not t and tg.numel() < t.numel() and tuple(tg.expand(t.shape).stride()) == tuple(t.stride()) and tg.storage_offset() == t.storage_offset()
+            except RuntimeError:
+                return False
+        expanded = [_is_expand_of(tg, t) for tg, t in zip(targets, need)]
+        targets = [tg if ex or (tg.numel() == t.numel() and tuple(tg.squeeze().shape) == tuple(t.squeeze().shape) and tg.squeeze().stride() == t.squeeze().stride()) else t
+                   for tg, t, ex in zip(targets, need, expanded)]
+        reduce_to = {id(t): tuple(tg.shape) for tg, t, ex in zip(targets, need, expanded) if ex}
         ref_dn = torch.autograd.grad(s_dn, targets, allow_unused=True) if (need and s_dn.requires_grad) else tuple(None for _ in need)
-        ref_dn = tuple(None if g_ is None else g_.reshape(t.shape) for g_, t in zip(ref_dn, need))
+        ref_dn = tuple(None if g_ is None else (g_ if id(t) in reduce_to else g_.reshape(t.shape)) for g_, t in zip(ref_dn, need))
         # reference: the dense denotation where the tensor is one of its leaves, else automatic differentiation of _matmul
         ref = tuple(d_ if d_ is not None else m_ for d_, m_ in zip(ref_dn, ref_mm))
         if isinstance(got, Raised):
@@ -261,6 +270,9 @@ def run(case):
                 owner = name_by_ptr.get(t.untyped_storage().data_ptr())
                 if owner is not None and owner not in subset:
                     continue  # an internal copy the library itself marked as requiring grad; not one of the chosen leaves
+                if id(t) in reduce_to and g is not None:
+                    g = g.sum_to_size(reduce_to[id(t)])
+                    rg = torch.zeros(reduce_to[id(t)], dtype=DT) if rg is None else rg
                 rg = torch.zeros_like(t) if rg is None else rg
                 if g is None:
                     if rg.abs().max().item() > 1e-9:
